@@ -170,6 +170,23 @@ func genC04(r *rand.Rand, tier string, env *Env) []Case {
 		}
 		cases = append(cases, Case{Kind: "program-with-cmdline", Ops: []Op{p.genOp()}, Oracles: []Op{{"c04.language", p.genOp().Args}}})
 	}
+	// the configuration file in other spellings (partial, padded, empty, malformed, absent): the loader's side of
+	// "whatever patterns toolchain.yaml defines, including a missing or unreadable file"
+	nY := 30
+	if tier == "thorough" {
+		nY = 400
+	}
+	for i := 0; i < nY; i++ {
+		cfg := pick(r, cfgMenu)
+		var cb [][]byte
+		for _, c := range cfg {
+			cb = append(cb, []byte(c))
+		}
+		style := []string{"omit-empty", "padded", "empty-file", "malformed", "absent", "omit-empty", "padded"}[i%7]
+		prog := "##!> cmdline " + pick(r, []string{"unix", "windows"}) + "\n" + genCmdWord(r) + "\n" + pick(r, []string{"ls@", "cat~", "a b", "x.y-z"}) + "\n##!<\n"
+		args := append(append([][]byte{[]byte(style)}, cb...), []byte(prog))
+		cases = append(cases, Case{Kind: "yaml-style:" + style, Ops: []Op{{"gen.runYaml", args}}})
+	}
 	return cases
 }
 
